@@ -66,3 +66,7 @@ package internal
 //@   assert_call[C13] metadata.New : from_credentials: arg0 == lastresult("credentials.PerRPCCredentials.GetRequestMetadata", 0)
 //@   assert_call[C13] metadata.FromOutgoingContext : of_callers_context: arg0 == ctx
 //@   modifies external
+//
+//@ func GetCallOptions
+//@   ensures[C03,C13] result != nil && fresh(result)
+//@   modifies nothing
